@@ -18,7 +18,7 @@ Mirrors `method_builder.py`:
                          ever emitted, so a positional-only parameter is compiled
                          as positional-or-keyword)
 * `checkCompatible`    — `_check_signature_compatible_with_implementation`
-* `wrapper`            — what the `exec`'d text does: Python binds the call
+* `wrapper`/`wrapperWith` — what the `exec`'d text does: Python binds the call
                          against the compiled parameters, `validate_attrs(kwargs)`
                          runs, then `implementation(<forwarded>)` is evaluated
 * `forwardCall`        — `_method_signature_to_implementation_call`
@@ -267,10 +267,13 @@ def sigCompiles (s : Sig) : Bool :=
 
 def sigValid (s : Sig) : Bool := sigInspectOk s && sigCompiles s
 
-/-- identifiers the generated text looks up as globals; a parameter of that name
-captures them (the value passed by the caller is then *called*; the model takes
-it to be a non-callable, i.e. `TypeError`) -/
-def reservedNames : List Name := ["implementation", "validate_attrs"]
+/-- identifiers the generated text looks up as globals (since /repo 0ac9e19 private
+names: no managed attribute can be called like that); a parameter of that name
+would capture them (the value passed by the caller would then be *called*; the
+model takes it to be a non-callable, i.e. `TypeError`) -/
+def implName : Name := "_spec_classes_implementation"
+def validateName : Name := "_spec_classes_validate_attrs"
+def reservedNames : List Name := [implName, validateName]
 
 def noCapture (b : Builder) : Bool := (names b.args).all (fun n => !reservedNames.contains n)
 
@@ -324,17 +327,21 @@ def forwardCall (b : Builder) (c : Call α) : FCall α :=
 
 /-- the generated method up to the point where the implementation is entered:
 `.error` = TypeError raised by the wrapper itself (implementation never entered),
-`.ok f` = the implementation is called with `f`. -/
-def wrapper (b : Builder) (c : Call α) : Except Err (FCall α) :=
+`.ok f` = the implementation is called with `f`. `gImpl`/`gValid` are the names
+under which the text looks up the implementation and `validate_attrs`. -/
+def wrapperWith (gImpl gValid : Name) (b : Builder) (c : Call α) : Except Err (FCall α) :=
   if !acceptsB (compiled b) c then .error .typeError
   else if !b.virt.isEmpty && b.checkAttrs
-      && ((names b.args).contains "validate_attrs" || !validateAttrs b (extraKw (compiled b) c)) then
-    -- a parameter called `validate_attrs` shadows the global: the caller's value is "called"
+      && ((names b.args).contains gValid || !validateAttrs b (extraKw (compiled b) c)) then
+    -- (a parameter called like the global would shadow it: the caller's value is "called")
     .error .typeError
-  else if (names b.args).contains "implementation" then
-    -- likewise: `implementation(...)` calls the caller's value, not the implementation
+  else if (names b.args).contains gImpl then
     .error .typeError
   else .ok (forwardCall b c)
+
+/-- the wrapper of /repo HEAD -/
+def wrapper (b : Builder) (c : Call α) : Except Err (FCall α) :=
+  wrapperWith implName validateName b c
 
 /-- the generated method run against an arbitrary (stateful) implementation -/
 def runWrapper {σ ρ : Type} (b : Builder) (impl : FCall α → σ → σ × Except Err ρ)
